@@ -171,6 +171,12 @@ func EdFamilies(rng *rand.Rand, nKeys int, nSpecialSq int) []EdCase {
 		und := undecodable(rng)
 		add("R-undecodable", key.Pub, append(append([]byte{}, und...), sig[32:]...))
 		add("A-undecodable", und, sig)
+		// ... with a scalar that would satisfy the equation if the undecodable string were taken for the identity (what a
+		// decoder leaves in its receiver when it fails) or for the base point: S = r + H(R,A,M)*a for r = 0, 1; and an
+		// undecodable key with (R, S) = ([r]B, r), which verifies if the key is taken for the identity
+		add("R-undecodable/as-identity", key.Pub, key.SignWith(big.NewInt(0), und, key.Pub, msg, d))
+		add("R-undecodable/as-B", key.Pub, key.SignWith(big.NewInt(1), und, key.Pub, msg, d))
+		add("A-undecodable/as-identity", und, append(append([]byte{}, ref.Encode(Rp)...), ref.LE32(r)...))
 		for _, l := range []int{0, 1, 31, 32, 63, 65, 96, 128} {
 			s2 := make([]byte, l)
 			copy(s2, sig)
